@@ -552,11 +552,13 @@ def wl_object_paths(rng, rec, tier):
     loop-series and generalized-loop expansions, which have no loop terms on a
     tree) must give the exact answer, whatever exponent the network stores"""
     import quimb.tensor.belief_propagation as bp
-    flavour = gen.choice(rng, ["D2BP", "D2BP", "D1BP", "HD1BP", "L1BP", "L2BP"])
+    flavour = gen.choice(rng, ["D2BP", "D2BP", "D1BP", "HD1BP", "L1BP", "L2BP", "HV1BP"])
     two = flavour in ("D2BP", "L2BP")
     dtype = gen.choice(rng, ["float64", "complex128"])
-    positive = flavour in ("D1BP", "HD1BP", "L1BP") and rng.random() < 0.6
-    tn, kind, n = rand_tree_tn(rng, hyper=False, positive=positive, dtype="float64" if positive else dtype, outer=two)
+    positive = flavour in ("D1BP", "HD1BP", "L1BP", "HV1BP") and rng.random() < 0.6
+    tn, kind, n = rand_tree_tn(rng, hyper=flavour in ("HD1BP", "HV1BP") and rng.random() < 0.5, positive=positive,
+                               dtype="float64" if positive else dtype, outer=two,
+                               uniform=int(rng.integers(2, 4)) if flavour == "HV1BP" else None)
     ex = float(gen.choice(rng, [0.0, 0.0, 1.5, -2.0, 0.5]))
     if ex:
         tn.exponent = ex
@@ -579,7 +581,7 @@ def wl_object_paths(rng, rec, tier):
         return {"flavour": flavour, "converged": False}
     steps = []
     cand = ["contract", "contract"]
-    for nm in ("normalize_tensors", "normalize_message_pairs", "normalize_messages",
+    for nm in ("normalize_tensors", "normalize_message_pairs", "normalize_messages", "contract_dense",
                "contract_loop_series_expansion", "contract_gloop_expand"):
         if hasattr(b, nm):
             cand.append(nm)
